@@ -305,19 +305,92 @@ class Crate:
         rewritten form carries an overflow obligation, so the wrapping release behaviour is excluded, not assumed.)"""
         jb, be = self.body(rel, ctx, name, nth)
         s = self.rd(rel)
-        m = re.compile(r'([A-Za-z_][\w\.]*?)\s*\.iter\(\)\s*\.map\(\|(\w+)\|\s*').search(s, jb, be)
+        m = re.compile(r'([A-Za-z_]\w*(?:\s*\.\s*\w+)*?)\s*\.\s*iter\(\)\s*\.\s*map\(\|(\w+)\|\s*').search(s, jb, be)
         if not m:
             raise AnchorLost('%s: iter().map(..).sum() lost in %s' % (rel, name))
         po = s.rfind('(', m.start(), m.end())
         pc = match_close(s, po, '(', ')')
         expr = s[m.end():pc - 1].strip()
-        m2 = re.compile(r'\s*\.sum(::<usize>)?\(\)').match(s, pc)
+        m2 = re.compile(r'\s*\.\s*sum(::<usize>)?\(\)').match(s, pc)
         if not m2:
             raise AnchorLost('%s: .sum() lost in %s' % (rel, name))
         new = ('({ let mut vx_sum: usize = 0;\n            for %s in vx_it: %s.iter()\n%s\n            {%s vx_sum = vx_sum + (%s);%s }\n            vx_sum })'
                % (m.group(2), m.group(1), invariant.rstrip(), body_pre, expr, body_post))
         self.wr(rel, s[:m.start()] + new + s[m2.end():])
         self.log.append(('rewrite', rel, 'R11 x1 (%s: iter().map(|%s| %s).sum() written as the fold it denotes)' % (name, m.group(2), expr)))
+
+    def collect_loop(self, rel, ctx, name, elem_ty, invariant, body_post='', nth=0):
+        """R15: `RECV.into_iter().map(|V| EXPR).collect()` on a Vec -> the loop it denotes:
+        `{ let mut vx_out = Vec::new(); for V in vx_it: RECV <invariant> { vx_out.push(EXPR); <body_post> } vx_out }`
+        (element order and count are those of the vector; `collect` into a Vec pushes in iteration order)."""
+        jb, be = self.body(rel, ctx, name, nth)
+        s = self.rd(rel)
+        m = re.compile(r'([A-Za-z_]\w*(?:\s*\.\s*\w+)*?)\s*\.\s*into_iter\(\)\s*\.\s*map\(\|(\w+)\|\s*').search(s, jb, be)
+        if not m:
+            raise AnchorLost('%s: into_iter().map(..).collect() lost in %s' % (rel, name))
+        po = s.rfind('(', m.start(), m.end())
+        pc = match_close(s, po, '(', ')')
+        expr = s[m.end():pc - 1].strip()
+        m2 = re.compile(r'\s*\.\s*collect\(\)').match(s, pc)
+        if not m2:
+            raise AnchorLost('%s: .collect() lost in %s' % (rel, name))
+        new = ('{ let mut vx_out: Vec<%s> = Vec::new();\n            for %s in vx_it: %s\n%s\n            { vx_out.push(%s);%s }\n            vx_out }'
+               % (elem_ty, m.group(2), m.group(1), invariant.rstrip(), expr, body_post))
+        self.wr(rel, s[:m.start()] + new + s[m2.end():])
+        self.log.append(('rewrite', rel, 'R15 x1 (%s: into_iter().map(|%s| ..).collect() written as the loop it denotes)' % (name, m.group(2))))
+
+    def enumerate_to_counter(self, rel, ctx, name, nth=0):
+        """R3: `for (I, V) in X.enumerate() { BODY }` -> `let mut I = 0usize; for V in X { BODY I += 1; }`
+        (side condition: BODY has no `continue`, so the counter is incremented exactly once per iteration)."""
+        jb, be = self.body(rel, ctx, name, nth)
+        s = self.rd(rel)
+        seg = s[jb:be]
+        m = re.search(r'for \((\w+), (\w+)\) in ([^{};]+?)\.enumerate\(\) \{', seg)
+        if not m or re.search(r'\bcontinue\b', seg):
+            raise AnchorLost('%s: enumerate loop of %s lost (R3 side condition)' % (rel, name))
+        lb = jb + m.end() - 1
+        le = match_close(s, lb)
+        iv, lv, src = m.group(1), m.group(2), m.group(3)
+        new = ('let mut %s = 0usize;\n        for %s in %s {' % (iv, lv, src)) + s[lb + 1:le - 1] + '    %s += 1;\n        }' % iv
+        self.wr(rel, s[:jb + m.start()] + new + s[le:])
+        self.log.append(('rewrite', rel, 'R3 x1 (enumerate() -> explicit counter in %s)' % name))
+
+    def ghost_loop_exits(self, rel, ctx, name, ghost, nth=0):
+        """place ghost text before every `return Err(` statement that follows the first loop keyword of fn (however many
+        there are: a refactoring that merges or splits the checks keeps its proof, a change that drops one fails elsewhere)"""
+        jb, be = self.body(rel, ctx, name, nth)
+        s = self.rd(rel)
+        loops = [m for m in code_find_all(s, r'\b(loop|while|for)\b', jb, be)]
+        if not loops:
+            raise AnchorLost('%s: no loop in %s' % (rel, name))
+        start = loops[0].start()
+        sites = [m.start() for m in code_find_all(s, r'\breturn\s+Err\(', start, be)]
+        for i in reversed(sites):
+            ls = s.rfind('\n', 0, i) + 1
+            s = s[:ls] + ghost.rstrip() + '\n' + s[ls:]
+        self.wr(rel, s)
+        self.log.append(('ghost', rel, '%s @ %d error exits of the loop' % (name, len(sites))))
+        return len(sites)
+
+    def try_exit(self, rel, ctx, name, call_prefix, ghost, occurrence=0, nth=0):
+        """R13 (same as R7, on demand): `CALL(..)?` -> `(match CALL(..) { Ok(vx_ok) => vx_ok, Err(vx_err) => { <ghost> return Err(vx_err); } })`
+        so that ghost code can run on the error exit.  Same error type on both sides is checked by rustc on the scratch copy
+        (a `?` that converts the error would not compile in this form: undecided, never an alarm)."""
+        jb, be = self.body(rel, ctx, name, nth)
+        s = self.rd(rel)
+        i = jb
+        for _ in range(occurrence + 1):
+            i = s.find(call_prefix + '(', i + 1, be)
+            if i < 0:
+                raise AnchorLost('%s: call %s lost in %s (R13)' % (rel, call_prefix, name))
+        po = i + len(call_prefix)
+        pc = match_close(s, po, '(', ')')
+        if s[pc:pc + 1] != '?':
+            raise AnchorLost('%s: %s(..) is not followed by `?` in %s (R13)' % (rel, call_prefix, name))
+        call = s[i:pc]
+        new = '(match %s { Ok(vx_ok) => vx_ok, Err(vx_err) => {\n%s\n            return Err(vx_err); } })' % (call, ghost.rstrip())
+        self.wr(rel, s[:i] + new + s[pc + 1:])
+        self.log.append(('rewrite', rel, 'R13 x1 (%s: `%s(..)?` written as a match so that the error exit can carry ghost code)' % (name, call_prefix)))
 
     def ghost(self, rel, ctx, name, stmt_text, ghost, where='before', nth=0, occurrence=0):
         """place ghost text before/after the statement (line) of fn that contains stmt_text"""
